@@ -4,7 +4,7 @@ from harness import o_c20_batch
 
 PROP = dict(
     groups=[],
-    obligations=[obl('C20.space_domain.mixed_batch', oracle=o_c20_batch.mixed_batch)],
+    obligations=[obl('C20.space_domain.mixed_batch', oracle=[o_c20_batch.mixed_batch, o_c20_batch.eppiston_regrid])],
     corr_models=[],
     scope='Out-of-domain points inside otherwise valid batches (Kenamond 3 inert region, Blake negative radius): oracle only — the '
           'per-point rejection is proved on the one-point models (run_rejects_iff, k3dN_run_outcomes); that it is applied to every '
